@@ -35,11 +35,10 @@ import (
 
 var curT *testing.T
 
-// textByKey remembers, across the runs of this process, the text generated for a requested state
-// (determinism clause of C14).
-var textByKey = map[string]string{}
 
 type submission struct {
+	extra    string  // extra configuration text in force
+	bfdRI    *uint32 // receive interval of the BFD profile in force (nil: none)
 	idx      int
 	useOld   bool
 	text     string
@@ -59,6 +58,8 @@ type attempt struct {
 }
 
 type fworld struct {
+	textByKey   map[string]string               // requested state -> text, this run
+	paramsByKey map[string]bgp.SessionParameters // model session key -> the parameters it was created with
 	env   *runner.Env
 	ch    *choice.Chooser
 	s     *simrt.Sched
@@ -128,6 +129,16 @@ func (w *fworld) onSend(v any, done bool) {
 			}
 			sub.model = w.model.Clone()
 			// determinism: one text per requested state (within this run and across the runs of the process)
+			sub.extra = ev.config.ExtraConfig
+			for _, p := range ev.config.BFDProfiles {
+				if p.ReceiveInterval != nil {
+					v := *p.ReceiveInterval
+					sub.bfdRI = &v
+				} else {
+					z := uint32(0)
+					sub.bfdRI = &z
+				}
+			}
 			bfd := ""
 			for _, p := range ev.config.BFDProfiles {
 				bfd += p.Name
@@ -135,11 +146,16 @@ func (w *fworld) onSend(v any, done bool) {
 					bfd += fmt.Sprint(*p.ReceiveInterval)
 				}
 			}
+			// determinism inside the run: one text per requested state (the comparison with other
+			// creation orders is made after the run, see freshRenderCheck)
 			key := sub.model.Key() + "|" + ev.config.ExtraConfig + "|" + bfd
-			if old, seen := textByKey[key]; seen && old != text {
-				w.violate("C14", "text-not-a-function-of-the-session-set", fmt.Sprintf("the same set of sessions and advertisements produced two different configurations (creation or map order): first differing line: %s", firstDiff(old, text)))
-			} else if !seen && len(textByKey) < 200000 {
-				textByKey[key] = text
+			if w.textByKey == nil {
+				w.textByKey = map[string]string{}
+			}
+			if old, seen := w.textByKey[key]; seen && old != text {
+				w.violate("C14", "text-not-a-function-of-the-session-set", fmt.Sprintf("the same set of sessions and advertisements produced two different configurations within one run: first differing line: %s", firstDiff(old, text)))
+			} else if !seen {
+				w.textByKey[key] = text
 			}
 		}
 		w.subs = append(w.subs, sub)
@@ -336,6 +352,10 @@ func (w *fworld) submitter(slot int, sm bgp.SessionManager) {
 			params, ms := bgpgen.Session(w.pick, slot, nsess, false)
 			nsess++
 			key := fmt.Sprintf("%d/%d", slot, nsess)
+			if w.paramsByKey == nil {
+				w.paramsByKey = map[string]bgp.SessionParameters{}
+			}
+			w.paramsByKey[key] = params
 			w.pending[me] = func(st *bgpmodel.State) { st.Sessions[key] = ms }
 			w.s.Event("%s: NewSession %s", me, params.SessionName)
 			sess, err := sm.NewSession(log.NewNopLogger(), params)
@@ -545,7 +565,103 @@ func gfrrRun(env *runner.Env) (res *runner.Result) {
 	if w.trouble != "" {
 		panic("harness trouble: " + w.trouble)
 	}
+	if res.Violation == nil && env.On("C14") {
+		simrt.Active, simrt.SelectOrder, simrt.OnSend = nil, nil, nil
+		w.freshRenderCheck()
+		res.Violation = w.viol
+	}
 	return res
+}
+
+// freshRenderCheck is the determinism clause of C14 in a replayable form: the requested state of a
+// submission of this run is built once more on a fresh session manager (no goroutines) under a
+// drawn creation order, advertisement order and map iteration order; the text must be byte
+// identical to the one the run rendered.
+func (w *fworld) freshRenderCheck() {
+	var cands []*submission
+	for _, sub := range w.subs {
+		if !sub.useOld && sub.model != nil {
+			cands = append(cands, sub)
+		}
+	}
+	if len(cands) == 0 {
+		return
+	}
+	picks := []*submission{cands[len(cands)-1]}
+	if len(cands) > 1 {
+		picks = append(picks, cands[w.pick(len(cands)-1, "fresh render of which submission")])
+	}
+	simrt.MapOrder = func(n int) []int { return w.ch.Perm(n, "fresh map order") }
+	defer func() { simrt.MapOrder = nil }()
+	for _, sub := range picks {
+		sm, drain := VerifNewSyncSessionManager(log.NewNopLogger())
+		keys := make([]string, 0, len(sub.model.Sessions))
+		for k := range sub.model.Sessions {
+			keys = append(keys, k)
+		}
+		sort.Strings(keys)
+		// extra info and BFD profile at a drawn position among the sessions
+		steps := len(keys)
+		extraAt, bfdAt := w.pick(steps+1, "extra info position"), w.pick(steps+1, "bfd position")
+		apply := func(i int) bool {
+			if i == extraAt && sub.extra != "" {
+				if err := sm.SyncExtraInfo(sub.extra); err != nil {
+					w.trouble = "fresh render: " + err.Error()
+					return false
+				}
+			}
+			if i == bfdAt && sub.bfdRI != nil {
+				prof := &metallbconfig.BFDProfile{Name: "fast"}
+				if *sub.bfdRI != 0 {
+					ri := *sub.bfdRI
+					prof.ReceiveInterval = &ri
+				}
+				if err := sm.SyncBFDProfiles(map[string]*metallbconfig.BFDProfile{"fast": prof}); err != nil {
+					w.trouble = "fresh render: " + err.Error()
+					return false
+				}
+			}
+			return true
+		}
+		order := w.ch.Perm(len(keys), "fresh creation order")
+		ok := true
+		for i, ki := range order {
+			if !apply(i) {
+				ok = false
+				break
+			}
+			k := keys[ki]
+			ms := sub.model.Sessions[k]
+			sess, err := sm.NewSession(log.NewNopLogger(), w.paramsByKey[k])
+			if err != nil {
+				w.violate("C14", "fresh-render-refused", fmt.Sprintf("re-creating session %s of submission #%d on a fresh session manager failed: %v", k, sub.idx, err))
+				return
+			}
+			var ads []*bgp.Advertisement
+			for _, ai := range w.ch.Perm(len(ms.Advs), "fresh advertisement order") {
+				ads = append(ads, bgpgen.ToAdvertisement(ms.Advs[ai]))
+			}
+			if err := sess.Set(ads...); err != nil {
+				w.violate("C14", "fresh-render-refused", fmt.Sprintf("re-submitting the advertisements of session %s of submission #%d on a fresh session manager failed: %v", k, sub.idx, err))
+				return
+			}
+		}
+		if !ok || !apply(len(keys)) {
+			panic("harness trouble: " + w.trouble)
+		}
+		text, have, err := drain()
+		if err != nil {
+			panic("harness trouble: fresh render: " + err.Error())
+		}
+		if !have {
+			continue
+		}
+		w.stat("probe.fresh-render-compared")
+		if text != sub.text {
+			w.violate("C14", "text-depends-on-creation-or-map-order", fmt.Sprintf("submission #%d: the same sessions and advertisements, created in another order on a fresh session manager, render a different configuration: first differing line: %s", sub.idx, firstDiff(sub.text, text)))
+			return
+		}
+	}
 }
 
 func firstOn(env *runner.Env) string {
